@@ -58,6 +58,69 @@ func infallibleSink(cc *ssa.CallCommon) bool {
 	return false
 }
 
+func hasErrorResult(fn *ssa.Function) bool {
+	res := fn.Signature.Results()
+	for i := 0; i < res.Len(); i++ {
+		if types.Identical(res.At(i).Type(), errType) {
+			return true
+		}
+	}
+	return false
+}
+
+func otherResultsUsed(call *ssa.Call, errIdx int) bool {
+	refs := call.Referrers()
+	if refs == nil {
+		return false
+	}
+	for _, r := range *refs {
+		if ex, ok := r.(*ssa.Extract); ok && ex.Index != errIdx && ex.Referrers() != nil {
+			for _, u := range *ex.Referrers() {
+				if _, dbg := u.(*ssa.DebugRef); !dbg {
+					return true
+				}
+			}
+		}
+	}
+	return false
+}
+
+// stickyWriterClosed: the call writes to a *zlib/gzip/flate.Writer (which keeps
+// the first error and returns it from every later call) and the function
+// checks the error of Close on the same writer value.
+func stickyWriterClosed(fn *ssa.Function, cc *ssa.CallCommon) bool {
+	var w ssa.Value
+	args := cc.Args
+	if cc.IsInvoke() {
+		args = append([]ssa.Value{cc.Value}, args...)
+	}
+	for _, a := range args {
+		v := a
+		if mi, ok := a.(*ssa.MakeInterface); ok {
+			v = mi.X
+		}
+		switch v.Type().String() {
+		case "*compress/zlib.Writer", "*compress/gzip.Writer", "*compress/flate.Writer":
+			w = v
+		}
+	}
+	if w == nil {
+		return false
+	}
+	for _, b := range fn.Blocks {
+		for _, in := range b.Instrs {
+			cl, ok := in.(*ssa.Call)
+			if !ok || len(cl.Common().Args) == 0 || cl.Common().Args[0] != w {
+				continue
+			}
+			if sc := cl.Common().StaticCallee(); sc != nil && sc.Name() == "Close" && cl.Referrers() != nil && len(*cl.Referrers()) > 0 {
+				return true
+			}
+		}
+	}
+	return false
+}
+
 // ErrFlow implements R-ERRFLOW over the functions selected by include.
 func (c *Ctx) ErrFlow(include, armed func(*ssa.Function) bool) []core.Ob {
 	var obs []core.Ob
@@ -66,6 +129,7 @@ func (c *Ctx) ErrFlow(include, armed func(*ssa.Function) bool) []core.Ob {
 			continue
 		}
 		fname := core.FnName(fn)
+		perCallee := map[string]int{}
 		k := 0
 		for _, b := range fn.Blocks {
 			for _, in := range b.Instrs {
@@ -89,8 +153,11 @@ func (c *Ctx) ErrFlow(include, armed func(*ssa.Function) bool) []core.Ob {
 					name = "func value"
 				}
 				call := in.(*ssa.Call)
-				k++
 				short := name[strings.LastIndex(name, "/")+1:]
+				// ordinal among the calls of the same callee in this function: adding or
+				// moving unrelated calls does not renumber it
+				perCallee[short]++
+				k = perCallee[short]
 				// ---- E1
 				var errv ssa.Value
 				if call.Common().Signature().Results().Len() == 1 {
@@ -110,12 +177,16 @@ func (c *Ctx) ErrFlow(include, armed func(*ssa.Function) bool) []core.Ob {
 						}
 					}
 				}
-				o := core.Ob{Rule: "R-ERRFLOW", Key: fmt.Sprintf("%s#%s%d:error-used", fname, short, k), Pos: c.P.Pos(call.Pos()), Func: fname, Armed: armed(fn), Status: core.OK,
+				o := core.Ob{Rule: "R-ERRFLOW", Key: fmt.Sprintf("%s#%s@%d:error-used", fname, short, k), Pos: c.P.Pos(call.Pos()), Func: fname, Armed: armed(fn), Status: core.OK,
 					Want: "the error returned by " + short + " is looked at (returned, tested or passed on), or the callee writes to an in-memory sink that cannot fail"}
 				switch {
 				case used:
 				case infallibleSink(cc):
 					o.Got = "in-memory sink"
+				case stickyWriterClosed(fn, cc):
+					o.Got = "write to a compressing writer with a sticky error whose Close is checked on this path"
+				case fn.Signature.Results().Len() > 0 && !hasErrorResult(fn) && otherResultsUsed(call, idx):
+					o.Got = "best-effort value in a function that cannot report errors: the non-error result is used, a failure yields the zero answer"
 				case strings.HasSuffix(name, ".Close") || strings.HasSuffix(name, ".SetDeadline") || strings.HasSuffix(name, ".SetReadDeadline"):
 					o.Status, o.Reason, o.Got = core.Allowed, "best-effort cleanup call", "best-effort cleanup call"
 				default:
@@ -147,7 +218,7 @@ func (c *Ctx) ErrFlow(include, armed func(*ssa.Function) bool) []core.Ob {
 						if len(errEdge.Preds) != 1 || !simpleErrorBlock(errEdge) {
 							continue // merged edge or recovery logic on the error path: not the plain `if err != nil { return ... }` idiom
 						}
-						e2 := core.Ob{Rule: "R-ERRFLOW", Key: fmt.Sprintf("%s#%s%d:error-edge-fails", fname, short, k), Pos: c.P.Pos(cmp.Pos()), Func: fname, Armed: armed(fn), Status: core.OK,
+						e2 := core.Ob{Rule: "R-ERRFLOW", Key: fmt.Sprintf("%s#%s@%d:error-edge-fails", fname, short, k), Pos: c.P.Pos(cmp.Pos()), Func: fname, Armed: armed(fn), Status: core.OK,
 							Want: "on the edge where the error of " + short + " is non-nil, the function does not return a nil (or unrelated, possibly nil) error"}
 						if why := errEdgeReturnsNil(fn, errEdge, errv); why != "" {
 							e2.Status, e2.Got = core.Violated, why
